@@ -26,18 +26,18 @@ class Query:
     def __init__(self, name, harness, entry, tus=(), defines=None, unwind=8, stubs=(), stdmodel=False, timeout=120,
                  mem_gb=12, backends=('cadical',), checks='mem', bound='', silent_throw=False, renames=None,
                  known=None, allow_bodyless=(), expect_covers=None, extra_cbmc=(), cxxflags=(), note='',
-                 validate=True, unwindset=(), uf=(), new_cap=0, tu_redirect=None, yield_in=None):
+                 validate=True, unwindset=(), uf=(), new_cap=0, tu_redirect=None, yield_in=None, c_override=None):
         self.name = name; self.harness = harness; self.entry = entry; self.tus = tuple(tus)
         self.defines = dict(defines or {}); self.unwind = unwind; self.stubs = tuple(stubs); self.stdmodel = tuple(stdmodel) if isinstance(stdmodel, (tuple, list)) else (('q',) if stdmodel else ())
         self.timeout = timeout; self.mem_gb = mem_gb; self.backends = tuple(backends); self.checks = checks
         self.bound = bound; self.silent_throw = silent_throw; self.renames = dict(renames or {})
         self.known = dict(known or {}); self.allow_bodyless = tuple(allow_bodyless)
         self.expect_covers = expect_covers; self.extra_cbmc = tuple(extra_cbmc); self.cxxflags = tuple(cxxflags)
-        self.note = note; self.validate = validate; self.unwindset = tuple(unwindset); self.uf = tuple(uf); self.new_cap = new_cap; self.tu_redirect = dict(tu_redirect or {}); self.yield_in = yield_in
+        self.note = note; self.validate = validate; self.unwindset = tuple(unwindset); self.uf = tuple(uf); self.new_cap = new_cap; self.tu_redirect = dict(tu_redirect or {}); self.yield_in = yield_in; self.c_override = dict(c_override or {})
 
     def module_key(self):
         return (self.harness, tuple(sorted(self.defines.items())), self.tus, self.stdmodel,
-                tuple(sorted(self.renames.items())), self.cxxflags, self.uf, tuple(sorted((k, v[0]) for k, v in self.tu_redirect.items())), self.yield_in)
+                tuple(sorted(self.renames.items())), self.cxxflags, self.uf, tuple(sorted((k, v[0]) for k, v in self.tu_redirect.items())), self.yield_in, tuple(sorted(self.c_override.items())))
 
 
 def sh(cmd, timeout=None, cwd=None, mem_gb=None, env=None):
@@ -203,6 +203,15 @@ class Pipeline:
                 open(os.path.join(d, 'module.ll'), 'w').write(txt)
             r = sh([sys.executable, os.path.join(VT, 'ir2c.py'), os.path.join(d, 'module.ll'), os.path.join(d, 'module.c')] + (['--uf=' + ','.join(q.uf)] if q.uf else []), timeout=300)
             if r['rc'] != 0: raise BuildError('ir2c on %s: %s' % (q.harness, r['err'][-3000:]))
+            if q.c_override:
+                # environment cut at C level: the body of a translated function is replaced by the query's model (stated in the
+                # evidence); used where the real body cannot be cut at link time (inline library templates)
+                src = open(os.path.join(d, 'module.c')).read()
+                for fname, body in q.c_override.items():
+                    m = re.search(r'^([^\n;{}]*\b%s\([^;{}]*\))\n\{\n.*?^\}\n' % re.escape(fname), src, re.M | re.S)
+                    if not m: raise BuildError('c_override: function %s not found in module.c' % fname)
+                    src = src[:m.start()] + m.group(1) + '\n{\n' + body + '\n}\n' + src[m.end():]
+                open(os.path.join(d, 'module.c'), 'w').write(src)
             meta = json.load(open(os.path.join(d, 'module.c.meta.json')))
             # vtables the harness takes a vptr from (VT_DECLARE_VTABLE) must be defined by one of the linked TUs
             wanted = set(re.findall(r'^@(_ZTV\w+) = external global \[0 x i8\*\]', open(hll).read(), re.M))
@@ -424,7 +433,7 @@ class Pipeline:
     # ---- one query end to end
     def run_query(self, q, replay_root):
         rec = dict(query=q.name, harness=q.harness, entry=q.entry, defines=q.defines, bound=q.bound, unwind=q.unwind,
-                   stubs=['base.c'] + list(q.stubs), stdmodel=q.stdmodel, checks=q.checks, uninterpreted_float_ops=list(q.uf), operator_new_cap_bytes=q.new_cap, internal_callees_redirected_to_stubs=sorted(q.tu_redirect), preemption_points_in_functions_matching=q.yield_in, verdict='error',
+                   stubs=['base.c'] + list(q.stubs), stdmodel=q.stdmodel, checks=q.checks, uninterpreted_float_ops=list(q.uf), operator_new_cap_bytes=q.new_cap, internal_callees_redirected_to_stubs=sorted(q.tu_redirect), preemption_points_in_functions_matching=q.yield_in, c_level_overrides=sorted(q.c_override), verdict='error',
                    failed=[], note=q.note)
         t0 = time.time()
         try:
